@@ -1,0 +1,80 @@
+//go:build verif
+
+// Copyright Istio Authors
+//
+// Licensed under the Apache License, Version 2.0 (the "License");
+// you may not use this file except in compliance with the License.
+// You may obtain a copy of the License at
+//
+//     http://www.apache.org/licenses/LICENSE-2.0
+//
+// Unless required by applicable law or agreed to in writing, software
+// distributed under the License is distributed on an "AS IS" BASIS,
+// WITHOUT WARRANTIES OR CONDITIONS OF ANY KIND, either express or implied.
+// See the License for the specific language governing permissions and
+// limitations under the License.
+
+package model
+
+import (
+	"istio.io/istio/pkg/config/schema/kind"
+	"istio.io/istio/pkg/util/sets"
+	"istio.io/istio/pkg/verif"
+)
+
+// ---------------------------------------------------------------------------------------------
+// C01: queries over the set of changed config keys used by every push decision
+// ---------------------------------------------------------------------------------------------
+
+// VerifHasKind: some changed key is of kind k.
+func VerifHasKind(configs sets.Set[ConfigKey], k kind.Kind) bool {
+	return verif.Exists(func(c ConfigKey) bool { return hasKey(configs, c) && c.Kind == k })
+}
+
+// VerifAllKind: every changed key is of kind k.
+func VerifAllKind(configs sets.Set[ConfigKey], k kind.Kind) bool {
+	return verif.Forall(func(c ConfigKey) bool { return !hasKey(configs, c) || c.Kind == k })
+}
+
+//verif:contract HasConfigsOfKind
+//verif:prop C01
+func ctHasConfigsOfKind(configs sets.Set[ConfigKey], k kind.Kind) {
+	r := HasConfigsOfKind(configs, k)
+	verif.Ensures("some-key-of-kind", r == VerifHasKind(configs, k))
+}
+
+//verif:invariant HasConfigsOfKind 1
+func invHasConfigsOfKind(configs sets.Set[ConfigKey], kind kind.Kind) bool {
+	return verif.Forall(func(c ConfigKey) bool { return !(hasKey(configs, c) && verif.Visited(configs, c)) || c.Kind != kind })
+}
+
+//verif:contract OnlyHasConfigsOfKind
+//verif:prop C01
+func ctOnlyHasConfigsOfKind(configs sets.Set[ConfigKey], k kind.Kind) {
+	r := OnlyHasConfigsOfKind(configs, k)
+	verif.Ensures("non-empty-and-all-of-kind", r == (len(configs) > 0 && VerifAllKind(configs, k)))
+}
+
+//verif:invariant OnlyHasConfigsOfKind 1
+func invOnlyHasConfigsOfKind(configs sets.Set[ConfigKey], k kind.Kind) bool {
+	return verif.Forall(func(c ConfigKey) bool { return !(hasKey(configs, c) && verif.Visited(configs, c)) || c.Kind == k })
+}
+
+//verif:contract ConfigsOfKind
+//verif:prop C01
+func ctConfigsOfKind(configs sets.Set[ConfigKey], k kind.Kind) {
+	r := ConfigsOfKind(configs, k)
+	verif.Ensures("fresh", verif.Fresh(r))
+	verif.Ensures("exactly-the-keys-of-kind", verif.Forall(func(c ConfigKey) bool { return hasKey(r, c) == (hasKey(configs, c) && c.Kind == k) }))
+	verif.Ensures("input-unchanged", verif.Forall(func(c ConfigKey) bool {
+		return hasKey(configs, c) == verif.Old(func() bool { return hasKey(configs, c) })
+	}))
+}
+
+//verif:invariant ConfigsOfKind 1
+func invConfigsOfKind(configs, ret sets.Set[ConfigKey], kind kind.Kind) bool {
+	return verif.Fresh(ret) && verif.Forall(func(c ConfigKey) bool {
+		return hasKey(ret, c) == (hasKey(configs, c) && verif.Visited(configs, c) && c.Kind == kind) &&
+			hasKey(configs, c) == verif.Old(func() bool { return hasKey(configs, c) })
+	})
+}
